@@ -203,10 +203,23 @@ _SELF_ATTR_CACHE = dict()
 _LT_CACHE = dict()
 
 
+_EXTRA_CACHES = []
+
+
+def register_cache(d):
+    """module-level caches of rule modules: cleared before every analysis,
+    so that nothing computed on one tree leaks into the analysis of
+    another (the self-test analyses many trees in one process)"""
+    _EXTRA_CACHES.append(d)
+    return d
+
+
 def clear_caches():
     _RETURN_CLASS_CACHE.clear()
     _SELF_ATTR_CACHE.clear()
     _LT_CACHE.clear()
+    for d in _EXTRA_CACHES:
+        d.clear()
 
 
 def local_types(db, fi):
